@@ -193,12 +193,15 @@ class Env:
         self.consts = dict(consts or {})      # qualified name of a static constant -> int
         self.sizes = dict(sizes or {})        # this->vec.size() -> int
         self.inits = {}                       # decl id -> initialiser of a local that is never re-assigned
+        self.callvals = {}                    # node id of a call -> assumed result
         self.wrapped = []
 
 
 def ev(fn, n, env):
     n = strip(n)
     k = n.get("k")
+    if n.get("i") in env.callvals and k in ("MCall", "Call", "OpCall"):
+        return env.callvals[n["i"]]
     if k == "Int":
         return int(n["v"])
     if k == "Bool":
@@ -284,12 +287,16 @@ def sx(fn, n, sym):
             return sym[("l", n["d"])]
         if "v" in n:
             return sympy.Integer(int(n["v"]))
+        if n.get("d") in sym.get(("inits",), {}):
+            return sx(fn, sym[("inits",)][n["d"]], sym)
         raise Unknown(render(n))
     if k == "Member":
         f = this_field(n)
         if f is not None:
             return sym.get(("f", f), sympy.Symbol(f, integer=True, nonnegative=True))
         raise Unknown(render(n))
+    if k == "Cond" and ("env",) in sym:
+        return sx(fn, n["then"] if ev(fn, n["c"], sym[("env",)]) else n["else"], sym)
     if k == "Un" and n["op"] == "~":
         v = sx(fn, n["e"], sym)
         if v == 0:
@@ -311,7 +318,12 @@ def sx(fn, n, sym):
             if n.get("op") != "[]":
                 raise Unknown(render(n))
             obj, name, args = n["a"][0], "at", n["a"][1:]
-        f = this_field(obj)
+        o_ = strip(obj)
+        hops = 0
+        while o_ is not None and o_.get("k") == "Ref" and o_.get("dk") == "local" and o_.get("d") in sym.get(("inits",), {}) and hops < 4:
+            o_ = strip(sym[("inits",)][o_["d"]])
+            hops += 1
+        f = this_field(o_)
         if f is None:
             raise Unknown(render(n))
         f = sym.get(("v", f), f)
@@ -407,7 +419,9 @@ def lock_decls(fx):
         if n.get("k") == "Var" and n.get("init") is not None:
             c = strip(n["init"])
             if c.get("k") in ("Construct", "TempObj") and LOCK_CLS.match(c.get("ccls", "") or "") and len(c.get("a", [])) == 1:
-                out.append((n, strip(c["a"][0])))
+                m = resolve_alias(fx, c["a"][0])
+                if this_field(m) is not None or (m.get("k") == "Ref" and m.get("dk") in ("local", "global", "smember")):
+                    out.append((n, m))
     return out
 
 
@@ -462,6 +476,45 @@ def pos_reaches(fx, a, b):
     return fx.reach((a[0], a[1] + 1), target_blocks=[b[0]]) is not None
 
 
+def opaque_calls(fx, about=None):
+    """calls whose effect the rules do not model: member functions called on `this`, lambdas, and any
+    call that receives `this` or (a member named in `about`) as an argument"""
+    out = []
+    for n in fx.fn.nodes():
+        if not is_call(n) or n.get("k") in ("Construct", "TempObj") and LOCK_CLS.match(n.get("ccls", "") or ""):
+            continue
+        if n.get("callee") == "FEAT::assertion":
+            continue
+        if n.get("k") == "MCall" and (n.get("obj") or {}).get("k") == "This":
+            out.append(n)
+            continue
+        if n.get("k") == "OpCall" and n.get("op") == "()" and "lambda" in (n.get("callee") or ""):
+            out.append(n)
+            continue
+        for a in n.get("a", []):
+            a_ = strip(a)
+            if a_.get("k") == "This" or (about and this_field(a_) in about):
+                out.append(n)
+                break
+    return out
+
+
+def unmodelled_locking(fx, mutex_pred):
+    """description of a locking construct on the mutex that lock_held_at() does not model, or None"""
+    modelled = {id(v) for v, m in lock_decls(fx)}     # plain locks on identifiable mutexes (ours or another one)
+    for n in fx.fn.nodes():
+        if n.get("k") == "Var" and id(n) not in modelled and re.search(r"std::(unique_lock|lock_guard|scoped_lock|shared_lock)", fx.fn.type(n.get("t")) or ""):
+            return "lock object `%s` (line %s) is not a plain single-mutex RAII lock" % (n.get("n"), n.get("l"))
+        if n.get("k") == "MCall" and n.get("n") in ("try_lock", "try_lock_for", "try_lock_until"):
+            return "try_lock at line %s" % n.get("l")
+        if is_call(n) and not (n.get("k") in ("Construct", "TempObj") and LOCK_CLS.match(n.get("ccls", "") or "")) and n.get("ccls") != "std::mutex":
+            if any(mutex_pred(strip(a)) for a in n.get("a", [])):
+                return "the mutex is passed to `%s` (line %s)" % (n.get("callee"), n.get("l"))
+    for n in opaque_calls(fx):
+        return "helper call `%s` (line %s) may take the lock" % (n.get("callee") or render(n), n.get("l"))
+    return None
+
+
 class WorkerModel:
     """Worker<Job>: constructor role map, operator(), dispatch targets"""
 
@@ -487,6 +540,14 @@ class WorkerModel:
             self._fx[fn.full] = FX(fn)
         return self._fx[fn.full]
 
+    def _inits_all(self):
+        """single-definition locals of all member functions of the worker (decl ids are unique per TU)"""
+        if not hasattr(self, "_inits"):
+            self._inits = {}
+            for f in self.methods.values():
+                self._inits.update(single_def_inits(f))
+        return self._inits
+
     def flag(self, name):
         """value of the Task's static flag as read by the worker code (`task->need_scatter`)"""
         for f in self.methods.values():
@@ -498,6 +559,7 @@ class WorkerModel:
 
     def env(self, ident, nwork, strategy):
         e = Env(consts=self.consts)
+        e.inits = self._inits_all()
         for role, val in (("id", ident), ("num_workers", nwork), ("strategy", strategy)):
             f = self.field_of.get(role)
             if f is not None and val is not None:
@@ -596,7 +658,7 @@ def fence_of(fx, call, fences_field, sym, own=None, forall=None):
                 return "OWN"
             if own is not None and sympy.simplify(e - own - 1) == 0:
                 return "NEXT"
-            return ("IDX", str(e))
+            return ("IDX", str(e), e)
     raise Unknown("fence receiver " + render(o))
 
 
@@ -632,7 +694,7 @@ def rule_fence(ck, facts):
         ck.incomplete(R, "FEAT::ThreadFence constructor/wait/open/close not found in kernel/util/thread.hpp")
         return
     is_sync = lambda t: ("std::mutex" in t) or ("condition_variable" in t)
-    state = set()
+    state, atomic = set(), set()
     for f in fns:
         for i in f.d.get("inits", []) or []:
             if i.get("member"):
@@ -641,18 +703,29 @@ def rule_fence(ck, facts):
             fld = this_field(n)
             if fld is not None and n.get("k") == "Member" and not is_sync(f.ntype(n)):
                 state.add(fld)
+                if "atomic" in f.ntype(n):
+                    atomic.add(fld)
+    if atomic:
+        ck.incomplete(R, "ThreadFence state member(s) %s are std::atomic: the lock-based discipline rules do not model atomics" % sorted(atomic))
+        return
     mutex_of = {}
     for name, f in sorted(meth.items()):
         fx = FX(f)
+        mp = lambda e, f=f: this_field(e) is not None and "std::mutex" in f.ntype(e)
         per_field = {}
         for n in f.nodes():
             fld = this_field(n)
             if n.get("k") != "Member" or fld not in state:
                 continue
-            m = lock_held_at(fx, n, lambda e: this_field(e) is not None and "std::mutex" in f.ntype(e))
+            m = lock_held_at(fx, n, mp)
             per_field.setdefault(fld, []).append((m, n.get("l")))
         for fld, acc in sorted(per_field.items()):
             bad = [l for m, l in acc if m is None]
+            if bad:
+                um = unmodelled_locking(fx, mp)
+                if um is not None:
+                    ck.incomplete(R, "ThreadFence::%s/%s: no modelled lock held at line(s) %s, but %s" % (name, fld, bad, um))
+                    continue
             ck.ob(R, "ThreadFence::%s/%s" % (name, fld), not bad,
                   "state member %s is accessed in ThreadFence::%s at line(s) %s without a lock on the fence mutex that dominates the access and is still held" % (fld, name, bad) if bad
                   else "every access to %s in %s() is dominated by a live lock on %s" % (fld, name, acc[0][0]), f.file, f.line)
@@ -660,8 +733,9 @@ def rule_fence(ck, facts):
                 if m is not None:
                     mutex_of.setdefault(name, set()).add(m)
     allm = set().union(*mutex_of.values()) if mutex_of else set()
-    ck.ob("E14.fence-one-mutex", "ThreadFence/mutex", len(allm) == 1,
-          "wait/open/close lock the mutex(es) %s; mutual exclusion of the state needs one and the same mutex" % sorted(allm), meth["wait"].file, meth["wait"].line)
+    if allm:
+        ck.ob("E14.fence-one-mutex", "ThreadFence/mutex", len(allm) == 1,
+              "wait/open/close lock the mutex(es) %s; mutual exclusion of the state needs one and the same mutex" % sorted(allm), meth["wait"].file, meth["wait"].line)
 
     # --- wait(): condition wait inside a loop on the state predicate
     R = "E14.fence-wait-loop"
@@ -673,32 +747,41 @@ def rule_fence(ck, facts):
         ck.incomplete(R, "ThreadFence::wait: expected exactly one condition_variable wait, found %d" % len(cw))
     else:
         c = cw[0]
-        cvar_wait = render(strip(c.get("obj")))
         if len(c.get("a", [])) >= 2:
+            # wait(lock, pred) == while(!pred()) wait(lock)
             lam = strip(c["a"][1])
+            body = [x for x in (lam.get("body") or {}).get("s", [])] if lam.get("k") == "Lambda" and (lam.get("body") or {}).get("k") == "Block" else []
             reads = {this_field(x) for x in walk(lam)} & state if lam.get("k") == "Lambda" else set()
-            ck.ob(R, "ThreadFence::wait/predicate-loop", bool(reads),
-                  "condition_variable::wait(lock, pred): predicate reads state %s" % sorted(reads), w.file, c.get("l"))
-            ck.incomplete(R, "ThreadFence::wait uses the predicate overload; the fence state machine rule models the while-loop form only")
+            if len(body) == 1 and body[0].get("k") == "Return" and reads:
+                pred_cond = {"k": "Un", "op": "!", "e": body[0]["e"], "t": body[0]["e"].get("t")}
+                ck.ob(R, "ThreadFence::wait/predicate-loop", True,
+                      "condition_variable::wait(lock, pred) re-tests the predicate `%s` (reads %s) after every wake-up" % (render(body[0]["e"]), sorted(reads)), w.file, c.get("l"))
+            else:
+                ck.incomplete(R, "ThreadFence::wait: predicate argument of condition_variable::wait is not a single-return lambda over the fence state")
         else:
             # every path from the wait call to the exit re-tests a branch condition that reads the state
-            cblocks = [b["id"] for b in fx.cfg.blocks.values() if b.get("cond") is not None and b.get("term") in ("WhileStmt", "DoStmt", "ForStmt")
+            cblocks = [b["id"] for b in fx.cfg.blocks.values() if b.get("cond") is not None and len(b.get("succ", [])) == 2
                        and ({this_field(x) for x in walk(w.by_id(b["cond"]))} & state)]
             pos = fx.pos(c)
             esc = fx.reach((pos[0], pos[1] + 1), target_blocks=[fx.cfg.exit], avoid_blocks=cblocks)
             loops = fx.enclosing_loops(c)
-            ok = esc is None and bool(cblocks) and bool(loops)
-            ck.ob(R, "ThreadFence::wait/predicate-loop", ok,
-                  "after _cvar.wait() returns the state predicate is re-tested by a loop condition before wait() can return (spurious wake-ups)" if ok
-                  else "condition_variable::wait at line %s is not inside a loop whose condition re-tests the fence state on every path to the return: a spurious wake-up lets wait() return while the fence is closed" % c.get("l"),
-                  w.file, c.get("l"))
+            ok = esc is None and bool(cblocks)
+            helper_pred = any(is_call(x) for b in fx.cfg.blocks.values() if b.get("cond") is not None for x in walk(w.by_id(b["cond"]) or {})
+                              if x.get("callee") != c.get("callee"))
+            if not ok and (helper_pred or opaque_calls(fx)):
+                ck.incomplete(R, "ThreadFence::wait: the branch conditions around condition_variable::wait call helpers; the re-test of the fence state is not visible")
+            else:
+                ck.ob(R, "ThreadFence::wait/predicate-loop", ok,
+                      "after _cvar.wait() returns the state predicate is re-tested by a branch condition before wait() can return (spurious wake-ups)" if ok
+                      else "after condition_variable::wait at line %s a path reaches the return of wait() without re-testing the fence state: a spurious wake-up (or a notify of an earlier phase) lets wait() return while the fence is closed" % c.get("l"),
+                      w.file, c.get("l"))
             if loops and loops[0].get("k") == "While":
                 pred_cond = loops[0]["c"]
 
     # --- state machine: ctor/close block, open releases; okay round trip
     R = "E14.fence-state-machine"
     if pred_cond is None:
-        ck.incomplete(R, "ThreadFence::wait: blocking predicate (while-condition) not identified")
+        ck.incomplete(R, "ThreadFence::wait: blocking predicate (while-condition / predicate lambda) not identified")
     else:
         def blocked(assign, fn):
             env = Env()
@@ -709,29 +792,43 @@ def rule_fence(ck, facts):
             return ev(w, pred_cond, env)
         try:
             init = {i["member"]: i["init"] for i in ctor.d.get("inits", []) or [] if i.get("member") and i.get("init")}
-            for who, assign, fn, want in (("ThreadFence()", init, ctor, 1), ("close", straight_assigns(meth["close"]), meth["close"], 1),
-                                          ("open", straight_assigns(meth["open"]), meth["open"], 0)):
+            for who, fn, want in (("ThreadFence()", ctor, 1), ("close", meth["close"], 1), ("open", meth["open"], 0)):
                 try:
+                    assign = init if fn is ctor else straight_assigns(fn)
+                    if fn is not ctor and opaque_calls(FX(fn)):
+                        raise Unknown("helper calls in %s()" % who)
                     b = blocked(assign, fn)
                     ck.ob(R, "ThreadFence/%s" % who, b == want,
                           "after %s the wait predicate `%s` is %s (%s expected: the fence must %s)" % (who, render(pred_cond), bool(b), bool(want), "block" if want else "let waiters pass"),
                           fn.file, fn.line)
                 except Unknown as e:
-                    ck.incomplete(R, "%s does not set the state read by the wait predicate to constants (%s)" % (who, e))
+                    ck.incomplete(R, "%s: the state read by the wait predicate is not set to constants by plain assignments (%s)" % (who, e))
         except Unknown as e:
             ck.incomplete(R, str(e))
     R = "E14.fence-okay-roundtrip"
-    rets = [n for n in w.nodes() if n.get("k") == "Return"]
+    rets = [n for n in walk(w.body, prune=lambda x: x.get("k") == "Lambda") if n.get("k") == "Return"]
     op = meth["open"]
     try:
         oas = straight_assigns(op)
         rf = this_field(rets[0].get("e")) if len(rets) == 1 else None
-        src = strip(oas.get(rf) or {}) if rf else {}
-        ok = rf is not None and src.get("k") == "Ref" and src.get("dk") == "param" and len(op.params) == 1
-        ck.ob(R, "ThreadFence/wait-returns-open-argument", ok,
-              "wait() returns %s, which open(%s) sets from its parameter" % (rf, op.params[0]["n"] if op.params else "") if ok
-              else "wait() returns `%s` but open() does not store its parameter there: a failed neighbour/worker is not seen by the waiter" % render(rets[0].get("e") if rets else None),
-              w.file, rets[0].get("l") if rets else w.line)
+        if rf is None:
+            # e.g. a local copy taken under the lock
+            r0 = strip(rets[0].get("e") or {}) if len(rets) == 1 else {}
+            if r0.get("k") == "Ref" and r0.get("dk") == "local":
+                ini = single_def_inits(w).get(r0["d"])
+                rf = this_field(ini) if ini is not None else None
+        if rf is None or len(op.params) != 1:
+            raise Unknown("wait() does not return a state member / open() does not take one status parameter")
+        src = strip(oas.get(rf) or {})
+        pd = op.params[0]["d"]
+        if src.get("k") == "Ref" and src.get("d") == pd:
+            ck.ob(R, "ThreadFence/wait-returns-open-argument", True, "wait() returns %s, which open(%s) sets from its parameter" % (rf, op.params[0]["n"]), w.file, rets[0].get("l"))
+        elif src.get("k") == "Bool" or (rf not in oas and not opaque_calls(FX(op)) and not any(x.get("d") == pd for x in op.nodes() if x.get("k") == "Ref")):
+            ck.ob(R, "ThreadFence/wait-returns-open-argument", False,
+                  "wait() returns `%s` but open() %s: a failed neighbour/worker is not seen by the waiter" % (rf, "stores the constant %s there" % render(src) if src else "never stores its status parameter"),
+                  w.file, rets[0].get("l"))
+        else:
+            raise Unknown("open() computes %s by `%s`" % (rf, render(src) if src else "a construct that is not a plain assignment"))
     except Unknown as e:
         ck.incomplete(R, str(e))
 
@@ -740,20 +837,27 @@ def rule_fence(ck, facts):
     fxo = FX(op)
     nts = [n for n in op.nodes() if n.get("k") == "MCall" and n.get("callee") in ("std::condition_variable::notify_all",)]
     one = [n for n in op.nodes() if n.get("k") == "MCall" and n.get("callee") == "std::condition_variable::notify_one"]
-    if one:
-        ck.ob(R, "ThreadFence::open/notify", False, "open() uses notify_one: several threads can wait on one fence (all workers wait on the start fence)", op.file, one[0].get("l"))
+    opq = [n for n in opaque_calls(fxo)] + [n for n in op.nodes() if is_call(n) and any("condition_variable" in op.ntype(strip(a)) for a in n.get("a", []))]
+    if one and not nts:
+        ck.ob(R, "ThreadFence::open/notify", False, "open() uses notify_one: several threads wait on one fence (all workers wait on the start fence), only one is woken", op.file, one[0].get("l"))
+    elif not nts and opq:
+        ck.incomplete(R, "ThreadFence::open: no notify_all, but helper call `%s` may notify" % (opq[0].get("callee") or render(opq[0])))
     elif not nts:
         ck.ob(R, "ThreadFence::open/notify", False, "open() never calls notify_all on the condition variable: waiting threads are not woken", op.file, op.line)
     else:
         ids = [n["i"] for n in nts]
-        esc = fxo.reach((fxo.cfg.entry, 0), target_blocks=[fxo.cfg.exit], avoid_stmts=ids)
+        esc = fxo.reach((fxo.cfg.entry, 0), target_blocks=[fxo.cfg.exit], avoid_stmts=ids + [n["i"] for n in opq if fxo.cfg.block_of(n.get("i")) is not None])
         sets = [n for n in op.nodes() if n.get("k") == "Assign" and this_field(n["lhs"]) in state and fxo.cfg.block_of(n["i"]) is not None]
         bad = []
+        mp = lambda e: this_field(e) is not None and "std::mutex" in op.ntype(e)
         for nt in nts:
-            held = lock_held_at(fxo, nt, lambda e: this_field(e) is not None and "std::mutex" in op.ntype(e))
+            held = lock_held_at(fxo, nt, mp)
             for s_ in sets:
                 if not fxo.dominates(fxo.pos(s_), fxo.pos(nt)) and held is None:
                     bad.append("notify_all (line %s) can run before `%s` (line %s) with the fence mutex not held: a waiter re-tests the predicate, sleeps again and the wake-up is lost" % (nt.get("l"), render(s_), s_.get("l")))
+        if bad and unmodelled_locking(fxo, mp):
+            ck.incomplete(R, "ThreadFence::open: notify precedes the state update and the locking is not modelled (%s)" % unmodelled_locking(fxo, mp))
+            return
         same_cv = cw and all(render(strip(n.get("obj"))) == render(strip(cw[0].get("obj"))) for n in nts)
         ok = esc is None and not bad and same_cv
         ck.ob(R, "ThreadFence::open/notify", ok,
@@ -782,9 +886,31 @@ def path_conditions(fx, block):
         r1 = block in cfg.reachable(ss[1], avoid=(d,))
         if r0 != r1:
             c = fx.fn.by_id(blk["cond"])
-            if c is not None:
-                out.append((c, r0))
+            if c is None:
+                continue
+            if not r0 and blk.get("term") in ("ForStmt", "WhileStmt", "DoStmt", "CXXForRangeStmt"):
+                # exit edge of an earlier loop: a terminating loop is left for every value of the
+                # loop-invariant fields, so its exit condition over loop-variant locals is no guard
+                variant_locals = {x.get("d") for x in walk(c) if x.get("k") == "Ref" and x.get("dk") == "local"} - set(single_def_inits(fx.fn))
+                if variant_locals:
+                    continue
+            out.append((c, r0))
     return out
+
+
+def relevant_condition(c, fields, locs):
+    """an unevaluable guard that may nevertheless constrain the enumerated fields/locals: it mentions
+    one of them or calls a member function / passes `this` somewhere"""
+    for x in walk(c):
+        if x.get("k") == "Member" and this_field(x) in fields:
+            return True
+        if x.get("k") == "Ref" and x.get("d") in locs:
+            return True
+        if x.get("k") == "MCall" and (x.get("obj") or {}).get("k") == "This":
+            return True
+        if is_call(x) and any(strip(a).get("k") == "This" for a in x.get("a", [])):
+            return True
+    return False
 
 
 class Site:
@@ -797,6 +923,7 @@ class Site:
         pn = node.get("pn", [])
         self.arg = {pn[i]: a for i, a in enumerate(node.get("a", [])) if i < len(pn)}
         self.where = fx.fn.name
+        self.unevaluated = []     # dominating guards that could not be evaluated but may constrain id / worker count
 
     def contexts(self):
         """set of (id, num_workers) values the constructor can receive, by enumeration of the free
@@ -846,7 +973,8 @@ class Site:
                         feasible = False
                         break
                 except Unknown:
-                    pass
+                    if relevant_condition(c, set(fields), set(lds)) and render(c) not in self.unevaluated:
+                        self.unevaluated.append(render(c))
             if not feasible:
                 continue
             out.add((ev(fn, self.arg["id"], env), ev(fn, self.arg["num_workers"], env)))
@@ -999,6 +1127,11 @@ def rule_dispatch(ck, job, vctx, inv_enum):
             if r["n"] == 0:
                 ck.note("%s::%s: XASSERT(%s) depends on run-time layer data; not decided" % (job.name, variant, text))
                 continue
+            site_ = next((s_ for s_ in job.sites if s_.where == where), None)
+            if r["bad"] and site_ is not None and site_.unevaluated:
+                ck.incomplete(R, "%s/%s->%s: XASSERT(%s) fails for %s, but the guard(s) %s dominating the construction could not be evaluated and may exclude these contexts" % (
+                    job.name, where, variant, text, r["bad"][0], site_.unevaluated))
+                continue
             ck.ob(R, "%s/%s->%s/XASSERT(%s)" % (job.name, where, variant, text), not r["bad"],
                   "contexts constructed in %s() reach %s whose XASSERT(%s) fails for %s: the assembly aborts" % (where, variant, text, ", ".join(r["bad"][:4])) if r["bad"]
                   else "XASSERT(%s) of %s holds in all %d (id, num_workers, strategy) contexts that %s() can construct (ids/worker counts <= %d)" % (text, variant, r["n"], where, NMAX),
@@ -1015,9 +1148,17 @@ def rule_combine(ck, job, vctx):
         calls = [n for n in fn.nodes() if task_call(n, "combine")]
         maxn = max(c[1] for c in vctx[variant])
         for k, c in enumerate(calls):
-            held = lock_held_at(fx, c, lambda e: this_field(e) == mfield)
+            mp = lambda e: this_field(e) == mfield
+            held = lock_held_at(fx, c, mp)
             ok = held is not None or maxn <= 1
             key = "%s::%s/combine%s" % (job.name, variant, "" if len(calls) == 1 else "#%d" % k)
+            if not ok:
+                um = unmodelled_locking(fx, mp)
+                if um is None and any(s_.unevaluated for s_ in job.sites):
+                    um = "the worker-count contexts are over-approximated (guards %s not evaluated)" % [u for s_ in job.sites for u in s_.unevaluated]
+                if um is not None:
+                    ck.incomplete(R, "%s: no modelled lock held at combine() (line %s), but %s" % (key, c.get("l"), um))
+                    continue
             if held is not None:
                 d = "task->combine() is called with a live lock on the shared %s" % held
             elif maxn <= 1:
@@ -1030,6 +1171,10 @@ def rule_combine(ck, job, vctx):
         a = strip(s.arg.get("thread_mutex") or {})
         f = this_field(a)
         ok = f is not None and "std::mutex" in s.fn.ntype(a) and "&" not in s.fn.ntype(a).replace("std::mutex &", "")
+        if not ok and (is_call(a) or a.get("k") in ("Un", "Member", "Index") or (a.get("k") == "Ref" and a.get("dk") != "local")
+                       or (a.get("k") == "Ref" and a.get("dk") == "local" and next((v for v in s.fn.nodes() if v.get("k") == "Var" and v.get("d") == a["d"]), {}).get("ref"))):
+            ck.incomplete(R, "%s/%s: thread_mutex argument `%s` is not a plain mutex member; its identity across workers is not modelled" % (job.name, s.where, render(a)))
+            continue
         ck.ob(R, "%s/%s/thread_mutex" % (job.name, s.where), ok,
               "Worker is constructed with the assembler's member mutex this->%s (one object shared by all workers)" % f if ok
               else "Worker in %s() receives `%s` as thread_mutex, not a mutex member of the assembler shared by all workers" % (s.where, render(a)),
@@ -1043,16 +1188,70 @@ def rule_combine(ck, job, vctx):
 # fence event extraction (structured walk) and happens-before matching of the two roles
 # -------------------------------------------------------------------------------------------------
 
+CUR = {"facts": None}
+
+
+def is_fence_type(t):
+    return bool(re.match(r"^(const )?FEAT::ThreadFence( &)?$", t or ""))
+
+
+def has_sync_events(fn, depth=0):
+    """fn (transitively through member helpers) performs fence operations, joins or task calls"""
+    for n in fn.nodes():
+        if fence_call(n) or task_call(n) or (n.get("k") == "MCall" and n.get("callee") == "std::thread::join"):
+            return True
+        if n.get("k") == "MCall" and (n.get("obj") or {}).get("k") == "This" and depth < 3:
+            h = find_method(fn.cls, n)
+            if h is None or has_sync_events(h, depth + 1):
+                return True
+        if is_call(n) and not fence_call(n) and n.get("callee") != "std::thread::join" and not (n.get("ccls") or "").startswith("std::vector<") and \
+                any(is_fence_type(fn.ntype(strip(a))) or re.match(r"^(const )?std::thread( &)?$", fn.ntype(strip(a)) or "") for a in n.get("a", [])):
+            return True
+    return False
+
+
+def find_method(cls, call):
+    facts = CUR["facts"]
+    if facts is None:
+        return None
+    c = [f for f in facts.functions if f.cls == cls and f.full == call.get("cfull")] or \
+        [f for f in facts.functions if f.cls == cls and f.qn == call.get("callee")]
+    return c[0] if len(c) == 1 else None
+
+
 class Proto:
     """extracts the ordered fence events of a statement list of one role"""
 
-    def __init__(self, fx, fences_field, sym, own=None, k_sym=None):
+    def __init__(self, fx, fences_field, sym, own=None, k_sym=None, skip=()):
         self.fx = fx
         self.fn = fx.fn
         self.ff = fences_field
         self.sym = dict(sym)
         self.own = own
         self.k_sym = k_sym
+        self.skip = set(skip)
+        self.depth = 0
+        self.sym[("inits",)] = single_def_inits(fx.fn)
+
+    def helper_events(self, n, out):
+        """member helper called on `this`: ignored when it performs no synchronisation, inlined when
+        it takes no arguments, otherwise not modelled"""
+        if n.get("n") in self.skip:
+            return
+        h = find_method(self.fn.cls, n)
+        if h is None:
+            raise Unknown("member helper `%s` (line %s) is not in the fact base" % (n.get("callee"), n.get("l")))
+        if not has_sync_events(h):
+            return
+        if n.get("a") or self.depth >= 2 or h.body is None:
+            raise Unknown("member helper `%s` (line %s) performs fence/join/task operations and takes arguments: not modelled" % (n.get("callee"), n.get("l")))
+        sub = Proto(FX(h), self.ff, self.sym, own=self.own, k_sym=self.k_sym, skip=self.skip)
+        sub.depth = self.depth + 1
+        for e_ in sub.stmts(h.body.get("s", [])):
+            for x in all_events([e_]):
+                x.setdefault("fx", sub.fx)
+                x["inlined"] = True
+            out.append(e_)
 
     def _only_exit(self, st):
         st_ = st
@@ -1064,6 +1263,13 @@ class Proto:
 
     def expr_events(self, e, out):
         for n in walk(e, prune=lambda x: x.get("k") == "Lambda"):
+            if n.get("k") == "MCall" and (n.get("obj") or {}).get("k") == "This":
+                self.helper_events(n, out)
+                continue
+            if n.get("k") == "Lambda" and any(fence_call(x) or task_call(x) for x in walk(n.get("body"))):
+                raise Unknown("fence/task operations inside a lambda at line %s" % n.get("l"))
+            if is_call(n) and not fence_call(n) and any(is_fence_type(self.fn.ntype(strip(a))) for a in n.get("a", [])):
+                raise Unknown("a fence is passed to `%s` (line %s): not modelled" % (n.get("callee"), n.get("l")))
             if fence_call(n):
                 kind = n["callee"].rsplit("::", 1)[-1]
                 sym = dict(self.sym)
@@ -1072,7 +1278,7 @@ class Proto:
                     if loops:
                         sym[("l", loop_normal(self.fx, loops[0])[0])] = self.k_sym
                 f = fence_of(self.fx, n, self.ff, sym, own=self.own)
-                ev_ = {"k": kind, "f": f, "node": n, "l": n.get("l")}
+                ev_ = {"k": kind, "f": f, "node": n, "l": n.get("l"), "fx": self.fx}
                 if kind == "open":
                     ev_["arg"] = strip(n["a"][0]) if n.get("a") else None
                 out.append(ev_)
@@ -1128,8 +1334,6 @@ class Proto:
             th = self.stmt(st.get("then"))
             el = self.stmt(st.get("else"))
             if all(x["k"] == "task" for x in th + el):
-                if any(c_["k"] != "task" for c_ in ce):
-                    raise Unknown("fence events in the condition at line %s" % st.get("l"))
                 return ce + th + el
             return ce + [{"k": "if", "cond": st["c"], "then": th, "else": el, "l": st.get("l")}]
         if k == "Switch":
@@ -1271,10 +1475,13 @@ def hb_check(master, worker, rounds):
 def cond_form(fn, c, sym):
     """normal form of a strict loop bound `a < b` / `b > a`: sympy expression b - a"""
     c = strip(c)
-    if c.get("k") != "Bin" or c["op"] not in ("<", ">"):
+    if c.get("k") != "Bin" or c["op"] not in ("<", ">", "<=", ">="):
         raise Unknown("loop condition " + render(c))
     a, b = sx(fn, c["lhs"], sym), sx(fn, c["rhs"], sym)
-    return sympy.simplify((b - a) if c["op"] == "<" else (a - b))
+    d = (b - a) if c["op"] in ("<", "<=") else (a - b)
+    if c["op"] in ("<=", ">="):
+        d = d + 1
+    return sympy.simplify(d)
 
 
 K = sympy.Symbol("k", integer=True, nonnegative=True)
@@ -1341,12 +1548,18 @@ def rule_protocol(ck, job, vctx, enum, can, inv_enum):
     size_thr = sympy.Symbol("size_%s" % thr_vec, integer=True, nonnegative=True)
     nsym = sympy.Symbol(nfield, integer=True, nonnegative=True)
 
-    def forall_ok(loop):
-        ln = loop_normal(fxa, loop)
+    def forall_ok(fx_, loop, idx):
+        """the loop's fence indices idx(k) are exactly the ids handed to the workers, for 2..NMAX workers"""
+        ln = loop_normal(fx_, loop)
         if not ln:
-            return False
-        rng = (sx(fxa.fn, ln[1], {}), cond_form(fxa.fn, ln[2], {("l", ln[0]): K}).subs(size_thr, nsym), ln[3])
-        return rng == create_range
+            raise Unknown("loop over the worker fences at line %s is not a counting loop" % loop.get("l"))
+        for n_ in range(2, NMAX + 1):
+            sub = {size_thr: n_, nsym: n_}
+            mine = sorted(int(idx.subs(K, k_).subs(sub)) for k_ in loop_values(fx_.fn, ln[1], ln[2], ln[3], {}, ln[0], sub))
+            ids = sorted(int(id_form.subs(K, k_).subs(sub)) for k_ in loop_values(fxa.fn, cinit, ccond, cstep, {}, cd, sub))
+            if mine != ids:
+                return False
+        return True
 
     wsym = worker_sym(job, site)
     seg_of = {}
@@ -1378,8 +1591,9 @@ def rule_protocol(ck, job, vctx, enum, can, inv_enum):
                         if it["k"] in ("loop",):
                             relabel(it["items"])
                         elif it["k"] in ("wait", "open", "close") and isinstance(it["f"], tuple):
-                            lp = [l_ for l_ in fxa.enclosing_loops(it["node"]) if loop_normal(fxa, l_)]
-                            if it["f"][1] == str(id_form) and lp and forall_ok(lp[0]):
+                            fx_ = it.get("fx", fxa)
+                            lp = [l_ for l_ in fx_.enclosing_loops(it["node"]) if loop_normal(fx_, l_)]
+                            if lp and it["f"][2].has(K) and forall_ok(fx_, lp[0], it["f"][2]):
                                 it["f"] = "OWN"
                 relabel(mitems)
                 wfn = wm.methods[variant]
@@ -1400,10 +1614,18 @@ def rule_protocol(ck, job, vctx, enum, can, inv_enum):
                         lm, lw = loop_normal(fxa, mround[0]["loop"]), loop_normal(wfx, wround[0]["loop"])
                         if not lm or not lw:
                             raise Unknown("round loops are not counting loops")
-                        fm = (sx(fxa.fn, lm[1], {}), cond_form(fxa.fn, lm[2], {("l", lm[0]): K}), lm[3])
-                        fw = (sx(wfn, lw[1], wsym), cond_form(wfn, lw[2], {**wsym, ("l", lw[0]): K}), lw[3])
-                        if fm != fw:
-                            viol.append("master runs rounds %s but the worker runs rounds %s: after the shorter loop ends the other side waits forever" % (fm, fw))
+                        sizes_ = set()
+                        for fn_, l_, sy_ in ((fxa.fn, lm, {}), (wfn, lw, wsym)):
+                            sizes_ |= {x for x in (sx(fn_, l_[1], sy_).free_symbols | cond_form(fn_, l_[2], {**sy_, ("l", l_[0]): K}).free_symbols) if x != K}
+                        if len(sizes_) > 1:
+                            raise Unknown("round loops depend on several quantities %s" % sorted(map(str, sizes_)))
+                        for size in range(0, 7):
+                            sub = {x: size for x in sizes_}
+                            cm = len(loop_values(fxa.fn, lm[1], lm[2], lm[3], {}, lm[0], sub))
+                            cw_ = len(loop_values(wfn, lw[1], lw[2], lw[3], wsym, lw[0], sub))
+                            if cm != cw_:
+                                viol.append("for %s = %d the master runs %d rounds but the worker runs %d: after the shorter loop ends the other side waits forever" % (sorted(map(str, sizes_)), size, cm, cw_))
+                                break
                     elif not wround:
                         w_seq = flatten_round(witems)
                     else:
@@ -1419,7 +1641,7 @@ def rule_protocol(ck, job, vctx, enum, can, inv_enum):
                     rounds = 1
                 for e_ in m_seq + w_seq:
                     if e_["k"] in ("wait", "open", "close") and isinstance(e_["f"], tuple):
-                        viol.append("%s() on fence index %s (line %s) addresses neither the start/end fence nor a worker's own fence (worker ids are %s for k in the creation loop)" % (e_["k"], e_["f"][1], e_["l"], id_form))
+                        viol.append("%s() on fence index %s (line %s) addresses neither the start/end fence nor exactly the workers' own fences (worker ids are %s for k in the creation loop): a fence is waited on that nobody opens, or a worker is left out" % (e_["k"], e_["f"][1], e_["l"], id_form))
                 if not viol:
                     viol = hb_check(m_seq, w_seq, rounds)
                 # the master must join after its protocol part
@@ -1456,6 +1678,8 @@ def eq_tests(fx, loop_var):
         if b.get("cond") is None or len(b.get("succ", [])) != 2:
             continue
         c = strip(fx.fn.by_id(b["cond"]) or {})
+        if c.get("k") == "Ref" and c.get("dk") == "local":
+            c = strip(single_def_inits(fx.fn).get(c["d"]) or {})
         if c.get("k") == "Bin" and c.get("op") == "==":
             l, r = strip(c["lhs"]), strip(c["rhs"])
             for a, o in ((l, r), (r, l)):
@@ -1493,9 +1717,15 @@ def local_defs(fx, d, before=None):
     return out
 
 
-def form_in_context(wm, fx, d, ctx, sym, scope_loop):
-    """symbolic value of local d at the work loop for the worker context ctx=(id, n, strategy)"""
+def form_in_context(wm, fx, d, ctx, sym, scope_loop, cache=None):
+    """symbolic value of local d at the work loop for the worker context ctx=(id, n, strategy): the
+    last definition (source order, at the nesting level of the element loop) whose If-guards hold in
+    the context; locals it mentions are expanded the same way, ?: is resolved with the context"""
+    cache = {} if cache is None else cache
+    if (d, ctx) in cache:
+        return cache[(d, ctx)]
     env = wm.env(ctx[0], ctx[1], ctx[2])
+    env.inits = single_def_inits(fx.fn)
     val = None
     for rhs, guards, node in local_defs(fx, d):
         lps = fx.enclosing_loops(node)
@@ -1505,7 +1735,44 @@ def form_in_context(wm, fx, d, ctx, sym, scope_loop):
             val = rhs
     if val is None:
         raise Unknown("no reaching definition")
-    return sx(fx.fn, val, sym)
+    r = node_form(wm, fx, val, ctx, sym, scope_loop, cache)
+    cache[(d, ctx)] = r
+    return r
+
+
+def node_form(wm, fx, node, ctx, sym, scope_loop, cache=None):
+    cache = {} if cache is None else cache
+    env = wm.env(ctx[0], ctx[1], ctx[2])
+    env.inits = single_def_inits(fx.fn)
+    s2 = dict(sym)
+    s2[("env",)] = env
+    s2[("inits",)] = env.inits
+    for x in walk(node):
+        if x.get("k") == "Ref" and x.get("dk") == "local" and ("l", x["d"]) not in s2 and "vector" not in fx.fn.ntype(x):
+            s2[("l", x["d"])] = form_in_context(wm, fx, x["d"], ctx, sym, scope_loop, cache)
+    return sx(fx.fn, node, s2)
+
+
+def event_disabled(wm, fx, node, ctx, loop):
+    """some If-guard (conjunct) of node inside the element loop evaluates to the wrong polarity in ctx"""
+    env = wm.env(ctx[0], ctx[1], ctx[2])
+    env.inits = single_def_inits(fx.fn)
+
+    def conj(c, pol):
+        c = strip(c)
+        if pol and c.get("k") == "Bin" and c.get("op") == "&&":
+            return conj(c["lhs"], True) + conj(c["rhs"], True)
+        if not pol and c.get("k") == "Bin" and c.get("op") == "||":
+            return conj(c["lhs"], False) + conj(c["rhs"], False)
+        return [(c, pol)]
+    for c, pol in fx.guards(node, stop=loop):
+        for c2, p2 in conj(c, pol):
+            try:
+                if bool(ev(fx.fn, c2, env)) != p2:
+                    return True
+            except Unknown:
+                pass
+    return False
 
 
 def rule_layered(ck, job, vctx, enum, inv_enum):
@@ -1533,6 +1800,8 @@ def rule_layered(ck, job, vctx, enum, inv_enum):
             H = fx.header_block(loop)
             body_entry = fx.cfg.blocks[H]["succ"][0]
             inner = list(all_events(works[0]["inner"]))
+            if any(e.get("inlined") for e in inner):
+                raise Unknown("fence operations of the element loop are performed inside member helpers")
             waits = [e for e in inner if e["k"] == "wait" and e["f"] == "NEXT"]
             opens = [e for e in inner if e["k"] == "open" and e["f"] == "OWN"]
             scat = [n for n in walk(loop.get("body")) if task_call(n, "scatter")]
@@ -1615,8 +1884,17 @@ def rule_layered(ck, job, vctx, enum, inv_enum):
                        "open-position": [F(G(ID - 1) + 1) - 1] if ident >= 2 else [SENTINEL, F(G(ID - 1) + 1) - 1]}
                 for what, d in (("range-begin", d_beg), ("range-end", d_end), ("wait-position", dw), ("open-position", do)):
                     got = form_in_context(wm, fx, d, ctx, wsym, scope)
-                    if not any(sympy.simplify(got - e_) == 0 for e_ in exp[what]):
-                        res[what].append("id=%d of %d workers: %s, expected %s" % (ident, nw, got, exp[what][0]))
+                    if exp[what][0] is SENTINEL and got != SENTINEL:
+                        # a position is set although this thread must not wait/open: fine if the event is switched off otherwise
+                        evs_ = waits if what == "wait-position" else opens
+                        if all(event_disabled(wm, fx, e_["node"], ctx, loop) for e_ in evs_):
+                            continue
+                    rs = [refute_zero(got - e_) for e_ in exp[what]]
+                    if any(r_ is None for r_ in rs):
+                        continue
+                    if any(r_ == "unknown" for r_ in rs):
+                        raise Unknown("%s for id=%d of %d workers: cannot decide whether %s equals %s" % (what, ident, nw, got, exp[what][0]))
+                    res[what].append("id=%d of %d workers: %s, expected %s" % (ident, nw, got, exp[what][0]))
             doc = {"range-begin": "first element = first element of the thread's first layer", "range-end": "end = first element of the next thread's first layer (consecutive thread_layers entries: the ranges of threads id and id+1 abut)",
                    "wait-position": "threads id < n wait at the first element of their last layer, thread n never waits (fence n+1 is never opened in layered mode)",
                    "open-position": "threads id >= 2 open at the last element of their first layer"}
@@ -1626,9 +1904,11 @@ def rule_layered(ck, job, vctx, enum, inv_enum):
                       fn.file, loop.get("l"))
             # element handed to prepare()
             prep = [n for n in walk(loop.get("body")) if task_call(n, "prepare")]
-            got = [sx(fn, p["a"][0], {**wsym, ("l", ln[0]): K}) for p in prep]
-            okp = all(sympy.simplify(g - VF(En_)(K)) == 0 for g in got)
-            ck.ob(R, name + "/prepared-element", okp, "prepare() receives %s for loop position k" % (got,), fn.file, prep[0].get("l"))
+            got = [sx(fn, p["a"][0], {**wsym, ("l", ln[0]): K, ("inits",): single_def_inits(fn)}) for p in prep]
+            rp = [refute_zero(g - VF(En_)(K)) for g in got]
+            if any(r_ == "unknown" for r_ in rp):
+                raise Unknown("prepare() argument %s not comparable with %s[k]" % (got, En_))
+            ck.ob(R, name + "/prepared-element", all(r_ is None for r_ in rp), "prepare() receives %s for loop position k (expected %s(k))" % (got, En_), fn.file, prep[0].get("l"))
         except Unknown as e:
             ck.incomplete("E7.layered-wait-before-scatter", "%s: %s" % (name, e))
 
@@ -1647,16 +1927,82 @@ def rule_wait_results(ck, job, vctx):
             ck.incomplete(R, "%s::%s: %s" % (job.name, variant, e))
             continue
         cnt = {}
+        sensitive = [n["i"] for n in fn.nodes() if n.get("i") is not None and (task_call(n) or fence_call(n))]
+        sensitive += [n["i"] for n in fn.nodes() if n.get("k") == "Return" and not (strip(n.get("e") or {}).get("k") == "Bool" and strip(n["e"])["v"] is False)]
+        false_rets = [n["i"] for n in fn.nodes() if n.get("k") == "Return" and strip(n.get("e") or {}).get("k") == "Bool" and strip(n["e"])["v"] is False]
         for e in all_events(items):
             if e["k"] != "wait":
                 continue
             f = e["f"] if isinstance(e["f"], str) else e["f"][1]
             cnt[f] = cnt.get(f, 0) + 1
-            ok = e.get("checked") == "return-false"
-            ck.ob(R, "%s::%s/wait(%s)#%d" % (job.name, variant, f, cnt[f]), ok,
-                  "a false result (failed neighbour/master) leads to `return false`" if ok
-                  else "the result of wait() on fence %s at line %s is not tested with an immediate `return false`: after a failure elsewhere this thread carries on (scatters next to a thread that gave up / never terminates the round protocol)" % (f, e["l"]),
-                  fn.file, e["l"])
+            key = "%s::%s/wait(%s)#%d" % (job.name, variant, f, cnt[f])
+            if e.get("inlined"):
+                ck.incomplete(R, "%s: the wait happens inside a member helper; the use of its result is not followed" % key)
+                continue
+            n = e["node"]
+            p = fx.parent.get(id(n))
+            q = n
+            while p is not None and p.get("k") == "Cast":
+                q, p = p, fx.parent.get(id(p))
+            discarded = p is None or p.get("k") in ("Block", "Case", "Default", "Try") or \
+                (p.get("k") in ("If",) and q is not p.get("c")) or (p.get("k") in ("For", "While", "Do", "ForRange") and q is p.get("body")) or \
+                (fx.parent.get(id(n)) or {}).get("to") == "void"
+            if discarded:
+                ck.ob(R, key, False, "the result of wait() on fence %s at line %s is discarded: after a failure elsewhere (false status) this thread carries on - it scatters next to a thread that gave up or never leaves the round protocol" % (f, e["l"]), fn.file, e["l"])
+                continue
+            # result stored in a local?
+            var = None
+            a = fx.parent.get(id(n))
+            while a is not None and a.get("k") in ("Cast",):
+                a = fx.parent.get(id(a))
+            if a is not None and a.get("k") == "Var":
+                var = a["d"]
+            elif a is not None and a.get("k") == "Assign" and strip(a["lhs"]).get("k") == "Ref" and strip(a["rhs"]) is n:
+                var = strip(a["lhs"])["d"]
+            tests = []
+            undecided = None
+            for b in fx.cfg.blocks.values():
+                if b.get("cond") is None or len(b.get("succ", [])) != 2:
+                    continue
+                c = fn.by_id(b["cond"])
+                if c is None:
+                    continue
+                has = any(x is n for x in walk(c)) or (var is not None and any(x.get("k") == "Ref" and x.get("d") == var for x in walk(c)))
+                if not has:
+                    continue
+                env = Env()
+                env.callvals[n["i"]] = 0
+                if var is not None:
+                    env.locs[var] = 0
+                try:
+                    v = ev(fn, c, env)
+                except Unknown as ex:
+                    undecided = str(ex)
+                    continue
+                tests.append((b["id"], b["succ"][0 if v else 1]))
+            if not tests:
+                ck.incomplete(R, "%s: the result of wait() at line %s is used in a way that is not modelled (%s)" % (key, e["l"], undecided or "no branch tests it"))
+                continue
+            wpos = fx.pos(n)
+            tblocks = [t[0] for t in tests]
+            covered = wpos[0] in tblocks or fx.reach((wpos[0], wpos[1] + 1), target_stmts=sensitive, avoid_blocks=tblocks) is None
+            bad_fail = None
+            for tb, fs in tests:
+                if fs is None:
+                    continue
+                r1 = fx.reach((fs, 0), target_stmts=sensitive, avoid_blocks=fx.cfg.noreturn_blocks())
+                r2 = fx.reach((fs, 0), target_blocks=[fx.cfg.exit], avoid_stmts=false_rets, avoid_blocks=fx.cfg.noreturn_blocks())
+                if r1 is not None or r2 is not None:
+                    bad_fail = (tb, r1, r2)
+            ok = covered and bad_fail is None
+            if ok:
+                d = "a false result (failed neighbour/master) leads to `return false` before any further task/fence operation"
+            elif not covered:
+                d = "after wait() on fence %s at line %s a task/fence operation is reachable before the result is tested" % (f, e["l"])
+            else:
+                d = "when wait() on fence %s at line %s returns false the thread does not leave with `return false` (it reaches %s): it carries on next to a thread that gave up" % (
+                    f, e["l"], "line %s" % (fn.by_id(bad_fail[1][1]) or {}).get("l") if bad_fail[1] else "a normal return")
+            ck.ob(R, key, ok, d, fn.file, e["l"])
 
 
 def rule_failure_open(ck, job):
@@ -1668,7 +2014,9 @@ def rule_failure_open(ck, job):
     wsym = worker_sym(job, site)
     key = "%s::operator()/not-okay->open(own,false)" % job.name
     try:
-        items = Proto(fx, wm.field_of.get("thread_fences"), wsym, own=ID).stmts(fn.body.get("s", []))
+        variants_ = {n_.get("n") for n_ in fn.nodes() if n_.get("k") == "MCall" and (n_.get("obj") or {}).get("k") == "This" and n_.get("n") in wm.methods
+                     and any("unique_ptr" in fn.ntype(strip(a_)) for a_ in n_.get("a", []))}
+        items = Proto(fx, wm.field_of.get("thread_fences"), wsym, own=ID, skip=variants_).stmts(fn.body.get("s", []))
         opens = [e for e in all_events(items) if e["k"] == "open" and e["f"] == "OWN"]
         disp = [n for n in fn.nodes() if n.get("k") == "MCall" and (n.get("obj") or {}).get("k") == "This" and n.get("n") in wm.methods and n.get("n") != "operator()"]
         flag = set()
@@ -1679,32 +2027,44 @@ def rule_failure_open(ck, job):
             else:
                 flag.add(None)
         if len(flag) != 1 or None in flag:
-            ck.ob(R, key, False, "the results of the work functions are not all stored in one status variable", fn.file, fn.line)
-            return
+            raise Unknown("the results of the work functions are not all stored in one status variable")
         fd = flag.pop()
         var = next(n for n in fn.nodes() if n.get("k") == "Var" and n.get("d") == fd)
-        init_false = strip(var.get("init") or {}).get("k") == "Bool" and strip(var["init"])["v"] is False
-        sets_true = [n for n in fn.nodes() if n.get("k") == "Assign" and strip(n["lhs"]).get("d") == fd and strip(n["rhs"]).get("k") == "Bool" and strip(n["rhs"])["v"] is True]
-        # false edges of `!status` tests are the only way around the open
+        isbool = lambda x, v: strip(x or {}).get("k") == "Bool" and strip(x)["v"] is v
+        init_false = isbool(var.get("init"), False)
+        sets_true = [n for n in fn.nodes() if n.get("k") == "Assign" and strip(n["lhs"]).get("d") == fd and isbool(n["rhs"], True)]
+        sets_false = [n["i"] for n in fn.nodes() if n.get("k") == "Assign" and strip(n["lhs"]).get("d") == fd and isbool(n["rhs"], False)]
+        # edges taken when the status is true are the legitimate ways around the open
         cut = []
-        for b in fx.cfg.blocks.values():
-            if b.get("cond") is None or len(b.get("succ", [])) != 2:
+        for b_ in fx.cfg.blocks.values():
+            if b_.get("cond") is None or len(b_.get("succ", [])) != 2:
                 continue
-            c = strip(fn.by_id(b["cond"]) or {})
-            if c.get("k") == "Un" and c["op"] == "!" and strip(c["e"]).get("d") == fd:
-                cut.append((b["id"], b["succ"][1]))
-            elif c.get("k") == "Ref" and c.get("d") == fd:
-                cut.append((b["id"], b["succ"][0]))
+            c = fn.by_id(b_["cond"])
+            if c is None or not any(x.get("k") == "Ref" and x.get("d") == fd for x in walk(c)):
+                continue
+            env = Env(locs={fd: 1})
+            try:
+                cut.append((b_["id"], b_["succ"][0 if ev(fn, c, env) else 1]))
+            except Unknown:
+                raise Unknown("status test `%s` not evaluable" % render(c))
+        if not opens or not cut:
+            raise Unknown("operator() has no `status false -> open(own fence)` structure (opens=%d, status tests=%d); failure notification may be organised differently" % (len(opens), len(cut)))
         O = [e["node"]["i"] for e in opens]
-        starts = [fx.cfg.entry] + [b["id"] for b in fx.cfg.blocks.values() if b.get("term") == "CXXTryStmt"]
-        esc = None
-        for s_ in starts:
+        tries = [b_["id"] for b_ in fx.cfg.blocks.values() if b_.get("term") == "CXXTryStmt"]
+        esc = fx.reach((fx.cfg.entry, 0), target_blocks=[fx.cfg.exit], avoid_stmts=O, cut_edges=cut)
+        for s_ in tries:
             esc = esc or fx.reach((s_, 0), target_blocks=[fx.cfg.exit], avoid_stmts=O, cut_edges=cut)
-        arg_false = bool(opens) and all(strip(e["arg"] or {}).get("k") == "Bool" and strip(e["arg"])["v"] is False for e in opens)
-        ok = init_false and not sets_true and esc is None and arg_false and bool(cut)
+        arg_false = all(isbool(e["arg"], False) for e in opens)
+        # status on the exception path: false if the handler sets it, or if it starts false and nothing sets it true
+        handler_sets = bool(tries) and all(fx.reach((s_, 0), target_blocks=[c_[0] for c_ in cut], avoid_stmts=sets_false) is None for s_ in tries)
+        handler_ok = handler_sets or (init_false and not sets_true)
+        handler_true = any(fx.reach((s_, 0), target_stmts=[n["i"] for n in sets_true]) is not None for s_ in tries) if sets_true else False
+        if not handler_ok and not handler_true and esc is None and arg_false:
+            raise Unknown("cannot establish that the status is false when an exception reaches the handler (status starts %s)" % render(var.get("init")))
+        ok = handler_ok and esc is None and arg_false
         ck.ob(R, key, ok,
-              "status starts false, is only set from the work functions' results, and every path to the end of operator() with a false status opens the worker's own fence with `false` (the waiting neighbour/master is released and learns of the failure)" if ok
-              else "a worker whose work function failed (false wait result or exception) can finish without opening its own fence with status false (init_false=%s, set true=%d, path around open=%s, open(false)=%s): the thread/master waiting on that fence blocks forever" % (init_false, len(sets_true), esc is not None, arg_false),
+              "every path to the end of operator() on which the status may be false (work function returned false, or exception) opens the worker's own fence with `false` (the waiting neighbour/master is released and learns of the failure)" if ok
+              else "a worker whose work function failed (false wait result or exception) can finish without opening its own fence with status false (path around the open=%s, open(false)=%s, status false on the exception path=%s): the thread/master waiting on that fence blocks forever" % (esc is not None, arg_false, handler_ok),
               fn.file, opens[0]["l"] if opens else fn.line)
     except (Unknown, StopIteration) as e:
         ck.incomplete(R, "%s: %s" % (key, e))
@@ -1714,6 +2074,56 @@ def rule_failure_open(ck, job):
 # clause 5: every selected cell exactly once (range partition)
 # -------------------------------------------------------------------------------------------------
 
+def refute_zero(expr, admissible=()):
+    """a concrete assignment (vector entries / sizes as small integers, with all `admissible`
+    expressions >= 0) for which expr != 0, or None.  "unknown" if expr is not numeric afterwards."""
+    expr = sympy.simplify(expr)
+    if expr == 0:
+        return None
+    apps = sorted(expr.atoms(sympy.core.function.AppliedUndef) | set().union(*[sympy.sympify(a).atoms(sympy.core.function.AppliedUndef) for a in admissible]) if admissible else expr.atoms(sympy.core.function.AppliedUndef), key=str)
+    rep = {a: sympy.Symbol("x%d" % i, integer=True) for i, a in enumerate(apps)}
+    e2 = expr.xreplace(rep)
+    adm = [sympy.sympify(a).xreplace(rep) for a in admissible]
+    syms = sorted(set(e2.free_symbols) | set().union(*[a.free_symbols for a in adm]) if adm else e2.free_symbols, key=str)
+    if len(syms) > 4:
+        return "unknown"
+    for vals in itertools.product((5, 8, 3, 13, 2, 1, 0), repeat=len(syms)):
+        sub = dict(zip(syms, vals))
+        try:
+            if any(a.subs(sub) < 0 for a in adm):
+                continue
+            v = e2.subs(sub)
+        except TypeError:
+            return "unknown"
+        if not v.is_number:
+            return "unknown"
+        if v != 0:
+            inv = {v_: k_ for k_, v_ in rep.items()}
+            return {str(inv.get(k_, k_)): v_ for k_, v_ in sub.items()}
+    return "unknown"
+
+
+def loop_values(fn, init, cond, step, sym, var, subs, cap=12):
+    """concrete values of a counting loop variable: init, init+step, ... while cond holds, with the
+    symbols of `subs` replaced by numbers"""
+    v0 = sx(fn, init, sym)
+    d = cond_form(fn, cond, {**sym, ("l", var): K})
+    v0 = sympy.simplify(v0.subs(subs))
+    if not v0.is_Integer:
+        raise Unknown("loop start %s not numeric" % v0)
+    out = []
+    k = int(v0)
+    while len(out) < cap:
+        dv = sympy.simplify(d.subs(subs).subs(K, k))
+        if not dv.is_Integer:
+            raise Unknown("loop bound %s not numeric" % dv)
+        if dv <= 0:
+            break
+        out.append(k)
+        k += step
+    return out
+
+
 def rule_partition(ck, job, vctx, enum):
     R = "E5.range-partition"
     wm = job.wm
@@ -1721,13 +2131,13 @@ def rule_partition(ck, job, vctx, enum):
     wsym = worker_sym(job, site)
     En_ = this_field(site.arg.get("element_indices"))
     Cn_ = this_field(site.arg.get("color_elements"))
+    colored = enum.get("colored")
     for variant in sorted(vctx):
         fn = wm.methods[variant]
         fx = wm.fx(fn)
         name = "%s::%s" % (job.name, variant)
         try:
             items = Proto(fx, wm.field_of.get("thread_fences"), wsym, own=ID).stmts(fn.body.get("s", []))
-            colored = enum.get("colored")
             is_layered = wm.flag("need_scatter") and any(c_[3] == "assemble" and c_[2] != colored and c_[1] > 1 for c_ in vctx[variant])
             if is_layered or any(e["k"] == "wait" and e["f"] == "NEXT" for e in all_events(items)):
                 continue        # layered: E7.layered-* / E5.layered-positions
@@ -1741,68 +2151,25 @@ def rule_partition(ck, job, vctx, enum):
             scope = (fx.enclosing_loops(loop) or [None])[0]
             sym = dict(wsym)
             RC = sympy.Symbol("c", integer=True, nonnegative=True)
-            round_ok = True
+            rl = None
             if scope is not None:
                 rl = loop_normal(fx, scope)
                 if rl is None:
                     raise Unknown("round loop is not a counting loop")
                 sym[("l", rl[0])] = RC
-                sizeC = sympy.Symbol("size_%s" % Cn_, integer=True, nonnegative=True)
-                round_ok = (sx(fn, rl[1], sym) == 0 and rl[3] == 1 and sympy.simplify(cond_form(fn, rl[2], sym) - (sizeC - 1 - RC)) == 0)
-
-            def form(node, ctx):
-                node = strip(node)
-                if node.get("k") == "Ref" and node.get("dk") == "local":
-                    # locals defined once at the loop level (offsets/sizes) are expanded recursively
-                    return form_local(node["d"], ctx)
-                return sx(fn, node, symx(ctx))
-
-            def symx(ctx):
-                s2 = dict(sym)
-                for n_ in fn.nodes():
-                    if n_.get("k") == "Var" and n_.get("d") is not None and ("l", n_["d"]) not in s2 and n_.get("d") != ln[0]:
-                        pass
-                return s2
-
-            cache = {}
-
-            def form_local(d, ctx):
-                if (d, ctx) in cache:
-                    return cache[(d, ctx)]
-                env = wm.env(ctx[0], ctx[1], ctx[2])
-                val = None
-                for rhs, guards, node in local_defs(fx, d):
-                    lps = fx.enclosing_loops(node)
-                    if (lps[0] if lps else None) is not scope:
-                        raise Unknown("definition of a range variable at line %s is not at the nesting level of the element loop" % node.get("l"))
-                    if all(bool(ev(fn, c_, env)) == pol for c_, pol in guards):
-                        val = rhs
-                if val is None:
-                    raise Unknown("no reaching definition")
-                s2 = dict(sym)
-                for x in walk(val):
-                    if x.get("k") == "Ref" and x.get("dk") == "local" and ("l", x["d"]) not in s2:
-                        s2[("l", x["d"])] = form_local(x["d"], ctx)
-                r = sx(fn, val, s2)
-                cache[(d, ctx)] = r
-                return r
-
             ctxs = sorted({(c_[0], c_[1], c_[2]) for c_ in vctx[variant]})
             prep = [n for n in walk(loop.get("body")) if task_call(n, "prepare")]
             if len(prep) != 1:
                 raise Unknown("%d prepare() calls in the element loop" % len(prep))
+            E = VF(En_)
             bad = []
             forms = set()
             by_n = {}
+            cache = {}
             for ctx in ctxs:
-                beg, end = form(ln[1], ctx), form(c["rhs"], ctx)
-                s2 = dict(sym)
-                s2[("l", ln[0])] = K
-                for x in walk(prep[0]["a"][0]):
-                    if x.get("k") == "Ref" and x.get("dk") == "local" and ("l", x["d"]) not in s2:
-                        s2[("l", x["d"])] = form_local(x["d"], ctx)
-                pidx = sx(fn, prep[0]["a"][0], s2)
-                E = VF(En_)
+                beg = node_form(wm, fx, ln[1], ctx, sym, scope, cache)
+                end = node_form(wm, fx, c["rhs"], ctx, sym, scope, cache)
+                pidx = node_form(wm, fx, prep[0]["a"][0], ctx, {**sym, ("l", ln[0]): K}, scope, cache)
                 if not (pidx.func == E and len(pidx.args) == 1):
                     raise Unknown("prepare() argument %s is not an entry of the element index vector" % pidx)
                 base = sympy.simplify(pidx.args[0] - K)
@@ -1811,34 +2178,62 @@ def rule_partition(ck, job, vctx, enum):
                 forms.add((beg, end, base))
                 sub = {ID: ctx[0], NW: ctx[1]} if ctx[1] > 0 else {ID: ctx[0]}
                 by_n.setdefault((ctx[1], ctx[2]), {})[ctx[0]] = (sympy.simplify(beg.subs(sub)), sympy.simplify(end.subs(sub)), base)
+            bases = {f_[2] for f_ in forms}
+            if len(bases) != 1:
+                raise Unknown("the offset of the prepared element differs between contexts: %s" % bases)
+            base = bases.pop()
+            round_note = ""
             if scope is None:
+                if base != 0:
+                    raise Unknown("unexpected element offset %s outside a round loop" % base)
                 lo, hi = sympy.Integer(0), sympy.Symbol("size_%s" % En_, integer=True, nonnegative=True)
             else:
                 C = VF(Cn_)
-                lo, hi = C(RC), C(RC + 1)
+                if not (base.func == C and len(base.args) == 1):
+                    raise Unknown("the element offset %s of a round is not an entry of the colour offsets vector" % base)
+                g = base.args[0]
+                lo, hi = C(g), C(g + 1)
+                # the rounds must visit every interval [C(j), C(j+1)), j = 0 .. size-2, once
+                sizeC = sympy.Symbol("size_%s" % Cn_, integer=True, nonnegative=True)
+                for size in range(1, 6):
+                    vals = loop_values(fn, rl[1], rl[2], rl[3], sym, rl[0], {sizeC: size})
+                    js = [sympy.simplify(g.subs(RC, v)) for v in vals]
+                    if not all(j.is_Integer for j in js):
+                        raise Unknown("colour index %s not numeric" % g)
+                    if sorted(int(j) for j in js) != list(range(0, size - 1)):
+                        bad.append("with %d colour offsets the rounds visit the colour intervals %s instead of %s" % (size, sorted(int(j) for j in js), list(range(0, size - 1))))
+                        break
+                round_note = "; rounds visit every colour interval exactly once (offset vectors of 1..5 entries)"
+            undecided = []
+
+            def differs(what, expr):
+                r = refute_zero(expr, admissible=[hi - lo])
+                if r is None:
+                    return
+                if r == "unknown":
+                    undecided.append(what)
+                else:
+                    bad.append("%s (e.g. for %s)" % (what, r))
             for (nw, st), per in sorted(by_n.items()):
                 ids = sorted(per)
-                first, last = per[ids[0]], per[ids[-1]]
-                if sympy.simplify(first[2] + first[0] - lo) != 0:
-                    bad.append("n=%d: first worker starts at %s, not at %s" % (nw, first[2] + first[0], lo))
-                if sympy.simplify(last[2] + last[1] - hi) != 0:
-                    bad.append("n=%d: last worker (id=%d) ends at %s, not at %s: %s" % (nw, ids[-1], sympy.simplify(last[2] + last[1]), hi, "cells are skipped" if True else ""))
-                for a, b in zip(ids, ids[1:]):
-                    if b != a + 1 or sympy.simplify(per[a][1] - per[b][0]) != 0:
-                        bad.append("n=%d: range of worker %d ends at %s but worker %d starts at %s" % (nw, a, per[a][1], b, per[b][0]))
                 if nw >= 1 and ids != list(range(1, nw + 1)):
-                    bad.append("n=%d: worker ids %s" % (nw, ids))
+                    raise Unknown("worker ids %s for n=%d" % (ids, nw))
+                first, last = per[ids[0]], per[ids[-1]]
+                differs("n=%d: first worker starts at %s, not at %s" % (nw, sympy.simplify(base + first[0]), lo), base + first[0] - lo)
+                differs("n=%d: last worker (id=%d) ends at %s, not at %s" % (nw, ids[-1], sympy.simplify(base + last[1]), hi), base + last[1] - hi)
+                for a, b in zip(ids, ids[1:]):
+                    differs("n=%d: range of worker %d ends at %s but worker %d starts at %s" % (nw, a, per[a][1], b, per[b][0]), per[a][1] - per[b][0])
+            if undecided and not bad:
+                raise Unknown("could not decide: %s" % undecided[0])
             symbolic = ""
             if len(forms) == 1 and len({c_[1] for c_ in ctxs if c_[1] >= 2}) >= 2:
-                beg, end, base = next(iter(forms))
+                beg, end, base_ = next(iter(forms))
                 ok_s = (sympy.simplify(end.subs(ID, ID - 1) - beg) == 0 and sympy.simplify(base + beg.subs(ID, 1) - lo) == 0 and sympy.simplify(base + end.subs(ID, NW) - hi) == 0)
                 symbolic = "; symbolically end(id-1) == beg(id), beg(1) == %s, end(n) == %s: %s" % (lo, hi, ok_s)
-                if not ok_s:
-                    bad.append("symbolic partition identities fail for beg=%s end=%s" % (beg, end))
-            if not round_ok:
-                bad.append("the round loop does not run over all colour intervals c = 0 .. size-2")
+                if not ok_s and not bad:
+                    ck.note("%s: the symbolic partition identities could not be established by sympy for beg=%s end=%s (the enumerated worker counts hold)" % (name, beg, end))
             ck.ob(R, name, not bad,
-                  "; ".join(bad[:4]) if bad else "the element ranges [beg(id), end(id)) of the workers partition [%s, %s) for every worker count in the %d contexts%s" % (lo, hi, len(ctxs), symbolic),
+                  "; ".join(bad[:4]) if bad else "the element ranges [beg(id), end(id)) of the workers partition [%s, %s) for every worker count in the %d contexts%s%s" % (lo, hi, len(ctxs), symbolic, round_note),
                   fn.file, loop.get("l"), sample={"forms": [str(f_) for f_ in forms]})
         except Unknown as e:
             ck.incomplete(R, "%s: %s" % (name, e))
@@ -1857,38 +2252,33 @@ def rule_thread_layer_ends(ck, facts):
         if n.get("k") == "Call" and n.get("callee") == "FEAT::assertion" and n.get("a"):
             c = strip(n["a"][0])
             if c.get("k") == "Bin" and c["op"] == "==":
-                try:
-                    texts[str(sx(fn, c["lhs"], {}))] = (c["rhs"], n)
-                except Unknown:
-                    pass
+                for l_, r_ in ((c["lhs"], c["rhs"]), (c["rhs"], c["lhs"])):
+                    try:
+                        texts[str(sx(fn, l_, {}))] = (r_, n)
+                    except Unknown:
+                        pass
     tl = None
     for k_ in texts:
         m = re.match(r"^(\w+)\(0\)$", k_)
         if m:
             tl = m.group(1)
-    ok = False
-    detail = "no XASSERT on the first/last thread-layer entry found"
-    if tl is not None:
+    if tl is None:
+        ck.incomplete(R, "_build_thread_layers: no XASSERT on the first/last thread-layer entry found (the property of the vector may be established differently)")
+        return
+    try:
         front = texts.get("%s(0)" % tl)
         back = texts.get("%s(size_%s - 1)" % (tl, tl))
-        f_ok = front is not None and strip(front[0]).get("k") in ("Int", "Cast") and ev(fn, front[0], Env()) == 0
-        b_ok = False
-        if back is not None:
-            # last entry == number of layers == size(layer offsets) - 1
-            r = strip(back[0])
-            try:
-                s2 = {}
-                if r.get("k") == "Ref" and r.get("dk") == "local":
-                    defs = local_defs(fx, r["d"])
-                    if len(defs) == 1:
-                        s2[("l", r["d"])] = sx(fn, defs[0][0], {})
-                v = sx(fn, r, s2)
-                b_ok = bool(re.match(r"^size_\w+ - 1$", str(v)))
-            except Unknown:
-                b_ok = False
-        ok = f_ok and b_ok
-        detail = "_build_thread_layers asserts %s.front() == 0 (%s) and %s.back() == number of layers (%s): the layered element ranges start at the first and end at the last layer" % (tl, f_ok, tl, b_ok)
-    ck.ob(R, "_build_thread_layers/front-back", ok, detail, fn.file, fn.line)
+        if front is None or back is None:
+            raise Unknown("front/back assertion pair incomplete")
+        f_ok = sx(fn, front[0], {("inits",): single_def_inits(fn)}) == 0
+        v = sx(fn, back[0], {("inits",): single_def_inits(fn)})
+        b_ok = bool(re.match(r"^size_\w+ - 1$", str(v)))
+        if not (f_ok and b_ok):
+            raise Unknown("asserted values %s / %s not recognised as 0 / number of layers" % (render(front[0]), v))
+        ck.ob(R, "_build_thread_layers/front-back", True,
+              "_build_thread_layers asserts %s.front() == 0 and %s.back() == number of layers: the layered element ranges start at the first and end at the last layer" % (tl, tl), fn.file, fn.line)
+    except Unknown as e:
+        ck.incomplete(R, "_build_thread_layers: %s" % e)
 
 
 # -------------------------------------------------------------------------------------------------
@@ -1896,34 +2286,136 @@ def rule_thread_layer_ends(ck, facts):
 # -------------------------------------------------------------------------------------------------
 
 def all_loop_over(fx, loop, vec_field, alt_bound_field=None):
-    """loop visits every entry of this->vec_field: range-for over it, or k = 0; k < size (or the
-    given count field); ++k.  Returns the element-access test function or None"""
+    """loop visits every entry of this->vec_field: range-for over it, k = 0; k < size (or the given
+    count field); ++k, or an iterator loop begin()..end().  Returns the element-access test or None"""
     fn = fx.fn
     if loop.get("k") == "ForRange" and this_field(loop.get("range")) == vec_field:
         d = (loop.get("var") or {}).get("d")
         return lambda o: strip(o).get("k") == "Ref" and strip(o).get("d") == d
+    if loop.get("k") != "For":
+        return None
     ln = loop_normal(fx, loop)
-    if ln is None or ln[3] != 1:
-        return None
-    try:
-        if sx(fn, ln[1], {}) != 0:
+    if ln is not None and ln[3] == 1:
+        try:
+            if sx(fn, ln[1], {}) != 0:
+                return None
+            cf = cond_form(fn, ln[2], {("l", ln[0]): K})
+        except Unknown:
             return None
-        cf = cond_form(fn, ln[2], {("l", ln[0]): K})
-    except Unknown:
+        bounds = [sympy.Symbol("size_%s" % vec_field, integer=True, nonnegative=True) - K]
+        if alt_bound_field:
+            bounds.append(sympy.Symbol(alt_bound_field, integer=True, nonnegative=True) - K)
+        if not any(sympy.simplify(cf - b) == 0 for b in bounds):
+            return None
+
+        def acc(o):
+            o = strip(o)
+            try:
+                return sx(fn, o, {("l", ln[0]): K}) == VF(vec_field)(K)
+            except Unknown:
+                return False
+        return acc
+    # iterator loop: for(auto it = v.begin(); it != v.end(); ++it)
+    init, c, inc = loop.get("init"), strip(loop.get("c") or {}), strip(loop.get("inc") or {})
+    if init is None or init.get("k") != "Decl" or len(init.get("vars", [])) != 1:
         return None
-    bounds = [sympy.Symbol("size_%s" % vec_field, integer=True, nonnegative=True) - K]
-    if alt_bound_field:
-        bounds.append(sympy.Symbol(alt_bound_field, integer=True, nonnegative=True) - K)
-    if not any(sympy.simplify(cf - b) == 0 for b in bounds):
+    v = init["vars"][0]
+    i0 = strip(v.get("init") or {})
+    is_m = lambda x, nm: strip(x).get("k") == "MCall" and strip(x).get("n") in nm and this_field(strip(x).get("obj")) == vec_field
+    if not is_m(i0, ("begin", "cbegin")):
+        return None
+    ca = c.get("a", []) if c.get("k") == "OpCall" and c.get("op") == "!=" else ([c.get("lhs"), c.get("rhs")] if c.get("k") == "Bin" and c.get("op") == "!=" else [])
+    if len(ca) != 2 or not ((strip(ca[0]).get("d") == v["d"] and is_m(ca[1], ("end", "cend"))) or (strip(ca[1]).get("d") == v["d"] and is_m(ca[0], ("end", "cend")))):
+        return None
+    ie = strip((inc.get("a") or [None])[0] or {}) if inc.get("k") == "OpCall" else strip(inc.get("e") or {})
+    if inc.get("op") != "++" or ie.get("d") != v["d"]:
         return None
 
-    def acc(o):
+    def acc_it(o):
         o = strip(o)
-        try:
-            return sx(fn, o, {("l", ln[0]): K}) == VF(vec_field)(K)
-        except Unknown:
-            return False
-    return acc
+        if o.get("k") == "OpCall" and o.get("op") in ("->", "*") and o.get("a"):
+            o = strip(o["a"][0])
+        elif o.get("k") == "Un" and o.get("op") == "*":
+            o = strip(o["e"])
+        return o.get("k") == "Ref" and o.get("d") == v["d"]
+    return acc_it
+
+
+VEC_READS = ("at", "operator[]", "size", "empty", "begin", "end", "cbegin", "cend", "front", "back", "reserve", "capacity", "emplace_back", "push_back", "data")
+
+
+def sync_marks(fx, tvec, ffield, nfield, depth=0):
+    """CFG marks of the join-all / close-all-fences / clear effects of a DomainAssembler member
+    function, including member helpers that perform them on every path; plus the statements whose
+    effect on threads/fences is not modelled"""
+    fn = fx.fn
+    m = {"join": {"blocks": set(), "stmts": set()}, "close": {"blocks": set(), "stmts": set()}, "clear": {"blocks": set(), "stmts": set()},
+         "join_other": set(), "close_other": set(), "clear_other": set(), "close_partial": set()}
+    in_good = set()
+    for lp in fn.nodes():
+        if lp.get("k") not in ("For", "ForRange"):
+            continue
+        body_calls = [n for n in walk(lp.get("body")) if n.get("k") == "MCall"]
+        js = [n for n in body_calls if n.get("callee") == "std::thread::join"]
+        if js:
+            acc = all_loop_over(fx, lp, tvec, nfield)
+            if acc is not None and all(acc(j.get("obj")) for j in js) and not fx.guards(js[0], stop=lp) and fx.header_block(lp) is not None:
+                m["join"]["blocks"].add(fx.header_block(lp))
+                in_good |= {id(j) for j in js}
+        cs = [n for n in body_calls if n.get("callee") == "FEAT::ThreadFence::close"]
+        if cs:
+            acc = all_loop_over(fx, lp, ffield)
+            if acc is not None and all(acc(resolve_alias(fx, c_.get("obj"))) for c_ in cs) and not fx.guards(cs[0], stop=lp) and fx.header_block(lp) is not None:
+                m["close"]["blocks"].add(fx.header_block(lp))
+                in_good |= {id(c_) for c_ in cs}
+    for n in fn.nodes():
+        if not is_call(n) or n.get("i") is None or fx.cfg.block_of(n["i"]) is None:
+            continue
+        if n.get("k") == "MCall" and n.get("callee") == "std::thread::join" and id(n) not in in_good:
+            m["join_other"].add(n["i"])
+        elif n.get("k") == "MCall" and n.get("callee") == "FEAT::ThreadFence::close" and id(n) not in in_good:
+            if fx.enclosing_loops(n):
+                m["close_other"].add(n["i"])
+            else:
+                m["close_partial"].add(n["i"])
+        elif n.get("k") == "MCall" and this_field(n.get("obj")) == tvec:
+            if n.get("n") == "clear" and not n.get("a"):
+                m["clear"]["stmts"].add(n["i"])
+            elif n.get("n") not in VEC_READS:
+                m["clear_other"].add(n["i"])
+        elif n.get("k") == "MCall" and (n.get("obj") or {}).get("k") == "This":
+            h = find_method(fn.cls, n)
+            if h is None or h.cfg is None or depth >= 2:
+                for k_ in ("join_other", "close_other", "clear_other"):
+                    m[k_].add(n["i"])
+                continue
+            hx = FX(h)
+            hm = sync_marks(hx, tvec, ffield, nfield, depth + 1)
+            for eff in ("join", "close", "clear"):
+                touches = bool(hm[eff]["blocks"] or hm[eff]["stmts"] or hm[eff + "_other"] or (eff == "close" and hm["close_partial"]))
+                if not touches:
+                    continue
+                always = hx.reach((hx.cfg.entry, 0), target_blocks=[hx.cfg.exit], avoid_blocks=hm[eff]["blocks"] | hx.cfg.noreturn_blocks(), avoid_stmts=hm[eff]["stmts"]) is None
+                if always and not n.get("a"):
+                    m[eff]["stmts"].add(n["i"])
+                else:
+                    m[eff + "_other"].add(n["i"])
+        else:
+            # thread vector / fences handed to an unmodelled callee (std::for_each, free helper ...)
+            for a in n.get("a", []):
+                flds = {this_field(x) for x in walk(a) if x.get("k") == "Member"}
+                if tvec in flds and "std::thread" not in (n.get("ccls") or "") and n.get("callee") != "std::thread::join":
+                    m["join_other"].add(n["i"])
+                    m["clear_other"].add(n["i"])
+                if ffield in flds and not fence_call(n) and (n.get("ccls") or "").find("Worker<") < 0 and n.get("k") not in ("Construct", "TempObj"):
+                    m["close_other"].add(n["i"])
+    # assignment to the thread vector
+    for n in fn.nodes():
+        if n.get("k") in ("Assign", "OpCall") and n.get("i") is not None and fx.cfg.block_of(n["i"]) is not None:
+            lhs = n.get("lhs") if n.get("k") == "Assign" else (n.get("a") or [None])[0] if n.get("op") == "=" else None
+            if lhs is not None and this_field(lhs) == tvec:
+                m["clear_other"].add(n["i"])
+    return m
 
 
 def rule_join(ck, job):
@@ -1942,41 +2434,44 @@ def rule_join(ck, job):
     cr = creates[0]
     tvec = this_field(cr.get("obj"))
     cpos = fxa.pos(cr)
-    join_hdr, close_hdr = [], []
-    for lp in fn.nodes():
-        if lp.get("k") not in ("For", "ForRange"):
-            continue
-        body_calls = [n for n in walk(lp.get("body")) if n.get("k") == "MCall"]
-        js = [n for n in body_calls if n.get("callee") == "std::thread::join"]
-        if js:
-            acc = all_loop_over(fxa, lp, tvec, nfield)
-            if acc is not None and all(acc(j.get("obj")) for j in js) and not fxa.guards(js[0], stop=lp):
-                join_hdr.append(fxa.header_block(lp))
-        cs = [n for n in body_calls if n.get("callee") == "FEAT::ThreadFence::close"]
-        if cs:
-            acc = all_loop_over(fxa, lp, ffield)
-            if acc is not None and all(acc(resolve_alias(fxa, c_.get("obj"))) for c_ in cs) and not fxa.guards(cs[0], stop=lp):
-                close_hdr.append(fxa.header_block(lp))
-    join_hdr = [h for h in join_hdr if h is not None]
-    close_hdr = [h for h in close_hdr if h is not None]
+    m = sync_marks(fxa, tvec, ffield, nfield)
     nr = fxa.cfg.noreturn_blocks()
-    esc = fxa.reach((cpos[0], cpos[1] + 1), target_blocks=[fxa.cfg.exit], avoid_blocks=set(join_hdr) | nr)
-    clears = [n for n in fn.nodes() if n.get("k") == "MCall" and n.get("n") == "clear" and this_field(n.get("obj")) == tvec]
-    esc2 = fxa.reach((cpos[0], cpos[1] + 1), target_blocks=[fxa.cfg.exit], avoid_stmts=[c_["i"] for c_ in clears], avoid_blocks=nr)
-    esc3 = fxa.reach((cpos[0], cpos[1] + 1), target_stmts=[c_["i"] for c_ in clears], avoid_blocks=set(join_hdr) | nr) if clears else None
-    why = []
+    start = (cpos[0], cpos[1] + 1)
+    esc = fxa.reach(start, target_blocks=[fxa.cfg.exit], avoid_blocks=m["join"]["blocks"] | nr, avoid_stmts=m["join"]["stmts"])
+    esc2 = fxa.reach(start, target_blocks=[fxa.cfg.exit], avoid_stmts=m["clear"]["stmts"], avoid_blocks=nr)
+    clear_ids = list(m["clear"]["stmts"])
+    esc3 = fxa.reach(start, target_stmts=clear_ids, avoid_blocks=m["join"]["blocks"] | nr, avoid_stmts=m["join"]["stmts"]) if clear_ids else None
+    why, soft = [], []
     if esc is not None:
-        why.append("a path from the creation of the worker threads to the return of assemble() passes no loop that joins every entry of %s (unjoined threads keep scattering into containers the caller already uses; the next job aborts on `already executing a job`)" % tvec)
+        if fxa.reach(start, target_blocks=[fxa.cfg.exit], avoid_blocks=m["join"]["blocks"] | nr, avoid_stmts=m["join"]["stmts"] | m["join_other"]) is None:
+            soft.append("threads are joined by a construct that is not modelled (join outside a recognised all-threads loop, or a helper/algorithm receiving %s)" % tvec)
+        else:
+            why.append("a path from the creation of the worker threads to the return of assemble() passes no join at all (unjoined threads keep scattering into containers the caller already uses; the next job aborts on `already executing a job`)")
     if esc2 is not None:
-        why.append("a normal exit is reached without %s.clear(): the next assemble() call aborts with `already executing a job`" % tvec)
+        if fxa.reach(start, target_blocks=[fxa.cfg.exit], avoid_stmts=m["clear"]["stmts"] | m["clear_other"], avoid_blocks=nr) is None:
+            soft.append("%s is emptied by a construct that is not modelled" % tvec)
+        else:
+            why.append("a normal exit is reached without %s.clear(): the next assemble() call aborts with `already executing a job`" % tvec)
     if esc3 is not None:
-        why.append("%s.clear() is reachable before the threads are joined (std::terminate on destruction of a joinable thread)" % tvec)
-    ck.ob(R, name, not why, "; ".join(why) if why else "every path from thread creation to a normal return joins all entries of %s (%d join-all loops) and then clears the vector" % (tvec, len(join_hdr)), fn.file, cr.get("l"))
+        if fxa.reach(start, target_stmts=clear_ids, avoid_blocks=m["join"]["blocks"] | nr, avoid_stmts=m["join"]["stmts"] | m["join_other"]) is None:
+            soft.append("join before clear happens through an unmodelled construct")
+        else:
+            why.append("%s.clear() is reachable before any join (std::terminate on destruction of a joinable thread)" % tvec)
+    if soft and not why:
+        ck.incomplete(R, "%s: %s" % (name, "; ".join(soft)))
+    else:
+        ck.ob(R, name, not why, "; ".join(why) if why else "every path from thread creation to a normal return joins all entries of %s (%d join-all loops/helpers) and then clears the vector" % (tvec, len(m["join"]["blocks"]) + len(m["join"]["stmts"])), fn.file, cr.get("l"))
     R = "E7.fences-closed-before-start"
-    ok = any(h in fxa.cfg.dom.get(cpos[0], ()) for h in close_hdr)
+    ok = any(h in fxa.cfg.dom.get(cpos[0], ()) for h in m["close"]["blocks"]) or any(fxa.dominates(fxa.pos(fn.by_id(s_)), cpos) for s_ in m["close"]["stmts"])
+    if not ok:
+        # definite only if some path to the creation passes nothing that could close all fences
+        loose = fxa.reach((fxa.cfg.entry, 0), target_stmts=[cr["i"]], avoid_stmts=m["close"]["stmts"] | m["close_other"], avoid_blocks=m["close"]["blocks"])
+        if loose is None:
+            ck.incomplete(R, "%s: the fences are closed before the threads start by a construct that is not modelled (close() in an unrecognised loop or helper)" % name)
+            return
     ck.ob(R, name, ok,
-          "a loop closing every fence of %s dominates the creation of the worker threads (fences left open by the previous job cannot release a worker early)" % ffield if ok
-          else "no loop closing all fences of %s dominates the creation of the worker threads: the second job on this assembler finds the start/neighbour fences of the first job still open, so waits pass immediately and adjacent layers/colours are scattered concurrently" % ffield,
+          "a loop (or helper) closing every fence of %s dominates the creation of the worker threads (fences left open by the previous job cannot release a worker early)" % ffield if ok
+          else "a path reaches the creation of the worker threads without closing all fences of %s (%d single close() calls do not cover the workers' fences): the second job on this assembler finds fences of the first job still open, so waits pass immediately and adjacent layers/colours are scattered concurrently" % (ffield, len(m["close_partial"])),
           fn.file, cr.get("l"))
 
 
@@ -2015,8 +2510,16 @@ def rule_count_wrap(ck, facts, nfield):
             free_f, free_s = sorted(free_f), sorted(free_s)
             bad = []
             total = 0
+            uneval = []
+            for c_, _w in conds:
+                try:
+                    ev(fn, c_, Env(fields={f_: 1 for f_ in free_f + [nfield]}, sizes={s_: 1 for s_ in free_s}))
+                except Unknown:
+                    if relevant_condition(c_, set(free_f) | {nfield}, set()):
+                        uneval.append(render(c_))
             for vals in itertools.product(range(NMAX + 2), repeat=len(free_f) + len(free_s)):
                 env = Env(fields=dict(zip(free_f, vals)), sizes=dict(zip(free_s, vals[len(free_f):])))
+                env.inits = single_def_inits(fn)
                 try:
                     if any(bool(ev(fn, c, env)) != want for c, want in conds if not any(this_field(x) == nfield for x in walk(c))):
                         continue
@@ -2052,6 +2555,9 @@ def rule_count_wrap(ck, facts, nfield):
                     break
             if bad is None:
                 continue
+            if bad and uneval:
+                ck.incomplete(R, "%s: `%s` may wrap (%s), but the dominating guard(s) %s could not be evaluated" % (fn.name, render(ln[1]), bad[-1], uneval))
+                continue
             ck.ob(R, "%s/for-init(%s)" % (fn.name, render(ln[1])), not bad,
                   "the loop at line %s starts at the unsigned value `%s`; admissible state %s (one of %d): the wrapped index is used (out-of-range .at() -> uncaught std::out_of_range, compile() terminates)" % (lp.get("l"), render(ln[1]), bad[-1], len(bad)) if bad
                   else "`%s` cannot wrap in the %d admissible states enumerated (values <= %d)" % (render(ln[1]), total, NMAX + 1),
@@ -2082,6 +2588,7 @@ RULES = [
     ("E5.thread-layers-ends", "_build_thread_layers asserts thread_layers.front() == 0 and .back() == number of layers. Broken for: layered strategy (first/last layers not assembled).", 1),
     ("E7.join-all-exits", "assemble(): every path from the creation of the threads to a normal return passes a loop joining every thread and then clears the thread vector. Broken for: any threaded job (result used while workers still scatter; next job aborts).", 5),
     ("E7.fences-closed-before-start", "assemble(): a loop closing every fence dominates the creation of the worker threads. Broken for: the second job on one assembler (fences left open by the first job release workers early).", 5),
+    ("E2.layer-sort-range", "_build_layers (layered_sorted): every std::sort/stable_sort on the element list sorts exactly one layer - from the layer boundary pushed last to the current element count, or [layers(k), layers(k+1)). Broken for: layered_sorted with >= 2 threads (cells migrate between Cuthill-McKee layers, adjacent cells are scattered concurrently).", 2),
     ("E13.worker-count-wrap", "work-distribution builders: a loop whose start value subtracts from the unsigned worker count cannot wrap for any admissible count the preceding assignment can produce (bounded enumeration, dominating guards respected). Broken for: meshes so small that zero workers result.", 1),
 ]
 
@@ -2096,6 +2603,7 @@ def run(tier):
         variants.append(("[f32,u32,Simplex3]", ("-DC17_FLOAT",)))
     for tag, extra in variants:
         facts = featlib.extract("tu/c17_domain_assembler.cpp", files=FILES, extra=extra)
+        CUR["facts"] = facts
         ck.tu(facts)
         errs = facts.errors_in_repo()
         anchored = [e for e in errs if e["file"] in (DA, TH)]
@@ -2150,6 +2658,11 @@ def run(tier):
         if tag == "":
             for nf in sorted(x for x in nfields if x):
                 rule_count_wrap(ck, facts, nf)
+            lf = {this_field(s_.arg.get("layer_elements")) for j_ in jobs for s_ in j_.sites if s_.where == "assemble"} - {None}
+            if len(lf) == 1:
+                rule_layer_sort(ck, facts, lf.pop())
+            else:
+                ck.incomplete("E2.layer-sort-range", "layer offsets member not identified")
     ck.assume("worker ids / worker counts are enumerated up to %d; the dispatch conditions and assertions compare them with constants <= 2, so larger values behave like %d" % (NMAX, NMAX))
     ck.assume("the master's loops over `_threads.size()` run over the same index set as the creation loop over the worker count (one emplace_back per iteration)")
     ck.assume("mutual exclusion is provided by std::mutex/std::unique_lock/std::condition_variable as specified; lock objects live until the end of their block")
@@ -2160,3 +2673,118 @@ def run(tier):
         "abstract (id, num_workers, strategy) contexts of the two Worker construction sites pushed through the dispatcher against the targets' own assertions; master/worker fence protocols matched by a happens-before graph per strategy x job class; "
         "CFG path rules of the layered neighbour handshake; sympy normal forms of the element ranges (partition); join/clear/close discipline of assemble(); unsigned wrap of the worker count in the layer builder.",
         trusted_base=["clang 14 front end (AST, template instantiation, CFG)", "featx plugin fact extraction", "sympy (floor/integer simplification), networkx (transitive closure)", "driver tu/c17_domain_assembler.cpp (5 jobs covering need_scatter x need_combine)"])
+
+
+# -------------------------------------------------------------------------------------------------
+# layered_sorted: sorting must stay inside one layer
+# -------------------------------------------------------------------------------------------------
+
+def rule_layer_sort(ck, facts, layer_field):
+    """sort calls of _build_layers on the element list: the sorted interval must be one layer"""
+    R = "E2.layer-sort-range"
+    fns = [f for f in facts.functions if f.name == "_build_layers" and f.cfg is not None]
+    if not fns:
+        ck.incomplete(R, "_build_layers not found")
+        return
+    fn = fns[0]
+    fx = FX(fn)
+    inits = single_def_inits(fn)
+
+    def moved_local(field):
+        for n in fn.nodes():
+            if n.get("k") == "OpCall" and n.get("op") == "=" and n.get("a") and this_field(n["a"][0]) == field and len(n["a"]) == 2:
+                r = strip(n["a"][1])
+                if r.get("k") == "Call" and r.get("callee", "").startswith("std::move") and r.get("a"):
+                    r = strip(r["a"][0])
+                if r.get("k") == "Ref" and r.get("dk") == "local":
+                    return r["d"]
+        return None
+    bvec = moved_local(layer_field)
+    if bvec is None:
+        ck.incomplete(R, "_build_layers: local vector that becomes %s not identified" % layer_field)
+        return
+
+    def iter_off(a):
+        """(vector decl id, offset node) of `v.begin() + off`"""
+        a = strip(a)
+        hops = 0
+        while hops < 6:
+            hops += 1
+            if a.get("k") in ("Construct", "TempObj") and len(a.get("a", [])) == 1 and "iterator" in (a.get("ccls") or ""):
+                a = strip(a["a"][0])
+            elif a.get("k") == "Ref" and a.get("dk") == "local" and a.get("d") in inits:
+                a = strip(inits[a["d"]])
+            else:
+                break
+        if a.get("k") == "OpCall" and a.get("op") == "+" and len(a.get("a", [])) == 2:
+            b, off = strip(a["a"][0]), a["a"][1]
+            if b.get("k") == "MCall" and b.get("n") == "begin" and strip(b.get("obj") or {}).get("k") == "Ref":
+                return strip(b["obj"])["d"], off
+        if a.get("k") == "MCall" and a.get("n") == "begin" and strip(a.get("obj") or {}).get("k") == "Ref":
+            return strip(a["obj"])["d"], None
+        raise Unknown("sort iterator `%s`" % render(a))
+    pushes = [n for n in fn.nodes() if n.get("k") == "MCall" and n.get("n") in ("push_back", "emplace_back") and strip(n.get("obj") or {}).get("d") == bvec
+              and fx.cfg.block_of(n["i"]) is not None]
+    sorts = [n for n in fn.nodes() if n.get("k") == "Call" and re.match(r"^std::(stable_)?sort$", n.get("callee", "")) and len(n.get("a", [])) >= 2]
+    B = VF("B")
+    for k_, srt in enumerate(sorts):
+        key = "_build_layers/%s#%d" % (srt["callee"].rsplit("::", 1)[-1], k_)
+        try:
+            (v0, x), (v1, y) = iter_off(srt["a"][0]), iter_off(srt["a"][1])
+            if v0 != v1 or x is None or y is None:
+                raise Unknown("sort range is not `v.begin()+a, v.begin()+b` on one vector")
+
+            def bform(node):
+                """boundary-vector normal form B(k) of an offset, following single-definition locals"""
+                node = strip(node)
+                hops = 0
+                while node.get("k") == "Ref" and node.get("dk") == "local" and node.get("d") in inits and hops < 4:
+                    node = strip(inits[node["d"]])
+                    hops += 1
+                if node.get("k") in ("MCall", "OpCall"):
+                    obj = node.get("obj") if node["k"] == "MCall" else (node.get("a") or [None])[0]
+                    args = node.get("a", []) if node["k"] == "MCall" else node.get("a", [])[1:]
+                    nm = node.get("n") if node["k"] == "MCall" else ("at" if node.get("op") == "[]" else None)
+                    if strip(obj or {}).get("d") == bvec and nm in ("at", "operator[]") and len(args) == 1:
+                        sym = {("l", d_): sympy.Symbol("v%d" % d_, integer=True) for d_ in {z["d"] for z in walk(args[0]) if z.get("k") == "Ref" and z.get("dk") == "local"}}
+                        return B(sx(fn, args[0], sym))
+                return None
+            fa, fb = bform(x), bform(y)
+            if fa is not None and fb is not None:
+                ok = fb.func == B and fa.func == B and sympy.simplify(fb.args[0] - fa.args[0] - 1) == 0
+                ck.ob(R, key, ok,
+                      "sorted interval is [layers(k), layers(k+1)): one layer" if ok
+                      else "the sorted interval runs from layer boundary %s to %s, i.e. across %s layers: cells move between Cuthill-McKee layers, so vertex-adjacent cells can end up in non-adjacent layers of different threads" % (fa.args[0], fb.args[0], sympy.simplify(fb.args[0] - fa.args[0])),
+                      fn.file, srt.get("l"))
+                continue
+            # incremental form: begin offset must be the most recently pushed boundary, end offset the current element count
+            xs, ys = strip(x), strip(y)
+            if xs.get("k") != "Ref" or ys.get("k") != "Ref" or xs.get("d") not in inits or ys.get("d") not in inits:
+                raise Unknown("sort offsets `%s`, `%s` are not single-definition locals" % (render(x), render(y)))
+            spos = fx.pos(srt)
+            # the last boundary push before the sort
+            last = [p for p in pushes if fx.dominates(fx.pos(p), spos) and
+                    fx.reach((fx.pos(p)[0], fx.pos(p)[1] + 1), target_stmts=[srt["i"]], avoid_stmts=[q["i"] for q in pushes]) is not None]
+            if len(last) != 1:
+                raise Unknown("the layer boundary pushed last before the sort is not unique (%d candidates)" % len(last))
+            parg = strip(last[0]["a"][0])
+            xi = strip(inits[xs["d"]])
+            size_of_v = lambda e: strip(e).get("k") == "MCall" and strip(e).get("n") == "size" and strip(strip(e).get("obj") or {}).get("d") == v0
+            xvar = next(v for v in fn.nodes() if v.get("k") == "Var" and v.get("d") == xs["d"])
+            yvar = next(v for v in fn.nodes() if v.get("k") == "Var" and v.get("d") == ys["d"])
+            if parg.get("k") == "Ref" and parg.get("d") == xs["d"]:
+                x_ok, why = True, ""
+            elif xi.get("k") == "MCall" and xi.get("n") == "back" and strip(xi.get("obj") or {}).get("d") == bvec:
+                # x = layers.back(): the most recent boundary only if read after the last push
+                x_ok = fx.dominates(fx.pos(last[0]), fx.pos(xvar))
+                why = "`%s` is read from %s.back() before the boundary `%s` of the layer being built is pushed, i.e. it is the start of the previous layer" % (xs["n"], "layers", render(parg))
+            else:
+                raise Unknown("begin offset `%s = %s` is neither the boundary pushed last nor read from the boundary vector" % (xs["n"], render(xi)))
+            if x_ok and not size_of_v(inits[ys["d"]]):
+                raise Unknown("end offset `%s` is not the current element count" % ys["n"])
+            ck.ob(R, key, x_ok,
+                  "sorted interval starts at the boundary pushed last (`%s`) and ends at the current element count: exactly the layer just built" % render(parg) if x_ok
+                  else "the sorted interval starts at %s: the sort reorders the previous layer together with the new one, cells move between Cuthill-McKee layers and vertex-adjacent cells can end up in layers processed concurrently by different threads (layered_sorted)" % why,
+                  fn.file, srt.get("l"))
+        except (Unknown, StopIteration) as e:
+            ck.incomplete(R, "%s: %s" % (key, e))
